@@ -74,6 +74,10 @@ def c06(ctx, spec):
     hist_run(ctx, [(1, 1, 0), (1, 2, 0), (1, 3, 0), (1, 4, 0), (0, 1, 0), (0, 2, 0), (2, 2, 0), (2, 3, 0), (3, 1, 0), (3, 2, 0)], T(ctx, 10000, 200000))
 def c08(ctx, spec):
     hist_run(ctx, [(1, 1, 0), (1, 2, 0), (1, 3, 0), (1, 4, 0), (0, 1, 0), (0, 2, 0), (0, 3, 0), (2, 2, 0), (3, 2, 0)], T(ctx, 10000, 200000), zero_d=True)
+    # blocks go back to the allocator INSTANCE that issued them: the same histories over unequal instances of allocators with every propagation trait
+    cfgs = [(1, 2, tr) for tr in (0, 1, 2, 4, 7)]
+    ctx.build(hist_builds(cfgs))
+    for (t, d, tr) in cfgs: ctx.run_sharded('hist_t%d_d%d_tr%d' % (t, d, tr), T(ctx, 4000, 60000), args=['--prop', ctx.pid, '--maxext', 3, '--steps', T(ctx, 12, 40), '--vary-alloc'], shards=2, label='hist_t%d_d%d_tr%d(vary-alloc)' % (t, d, tr))
 def c10(ctx, spec):
     cfgs = [(1, 2, tr) for tr in range(16)] + [(1, 1, 0), (1, 1, 7), (1, 3, 0), (1, 3, 7)]
     hist_run(ctx, cfgs, T(ctx, 5000, 100000), extra=['--vary-alloc'], shards=1 if ctx.tier == 'quick' else 2)
